@@ -456,6 +456,59 @@ def s8(ctx):
     return obs
 
 
+_VALUE_PRESERVING = ("decode", "encode", "strip", "lower", "str", "fsdecode")
+
+
+def _absent_type_values(ctx, f, cfg, du, n, e, depth):
+    """What *e* evaluates to at *n* when no type is recorded: a list of ("raises" | "none" | "default", text).
+    Lookups of the key "type" that raise KeyError for a missing key are "raises"; a non-raising lookup yields its
+    default; value-preserving wrappers keep the class; anything else is not modelled (AnalysisError)."""
+    from ..dataflow import origins
+    if depth > 8:
+        raise AnalysisError("%s: type value too deep to follow" % f.qualname)
+    out = []
+    for o in origins(du, n, e):
+        leaf, at = o.leaf, (o.node or n)
+        if o.kind != "expr" or leaf is None:
+            raise AnalysisError("%s: returned type comes from %s (not a lookup of the recorded type)" % (f.qualname, o.kind))
+        fold = lambda x: ctx.P.try_fold(ctx.module_at(f, at), x)
+        if isinstance(leaf, ast.Constant):
+            out.append(("none" if leaf.value is None else "default", "`%s`" % src(leaf)))
+        elif isinstance(leaf, ast.Subscript) and fold(leaf.slice) in ("type", b"type"):
+            out.append(("raises", src(leaf)))
+        elif isinstance(leaf, ast.Call) and isinstance(leaf.func, ast.Attribute) and leaf.func.attr == "get" \
+                and any(fold(a) in ("type", b"type") for a in leaf.args[:2]):
+            if len(leaf.args) == 2 and fold(leaf.args[0]) in ("xandikos", b"xandikos") and not leaf.keywords:
+                out.append(("raises", src(leaf)))      # dulwich ConfigFile.get(section, name) raises KeyError
+            elif len(leaf.args) == 1 and not leaf.keywords:
+                out.append(("none", "`%s`" % src(leaf)))
+            else:
+                d = leaf.args[1] if len(leaf.args) >= 2 else next((k.value for k in leaf.keywords if k.arg in ("fallback", "default")), None)
+                if d is None:
+                    raise AnalysisError("%s: `%s` not modelled" % (f.qualname, src(leaf)))
+                for k, t in _absent_type_values(ctx, f, cfg, du, at, d, depth + 1):
+                    out.append(("none", "`%s`" % src(leaf)) if k == "none" else ("default", "`%s`" % src(leaf)))
+        elif isinstance(leaf, ast.Call) and ((isinstance(leaf.func, ast.Attribute) and leaf.func.attr in _VALUE_PRESERVING and not isinstance(leaf.func.value, ast.Name)
+                                              or isinstance(leaf.func, ast.Attribute) and leaf.func.attr in _VALUE_PRESERVING)):
+            inner = _absent_type_values(ctx, f, cfg, du, at, leaf.func.value, depth + 1)
+            out.extend(inner)
+        elif isinstance(leaf, ast.Call) and isinstance(leaf.func, ast.Name) and leaf.func.id in ("str", "bytes") and leaf.args:
+            out.extend(_absent_type_values(ctx, f, cfg, du, at, leaf.args[0], depth + 1))
+        elif isinstance(leaf, ast.BoolOp) and isinstance(leaf.op, ast.Or):
+            first = _absent_type_values(ctx, f, cfg, du, at, leaf.values[0], depth + 1)
+            for k, t in first:
+                if k == "raises":
+                    out.append((k, t))
+                else:   # falsy -> the next operand is the value
+                    rest = ast.BoolOp(op=ast.Or(), values=leaf.values[1:]) if len(leaf.values) > 2 else leaf.values[1]
+                    ast.copy_location(rest, leaf)
+                    for k2, t2 in _absent_type_values(ctx, f, cfg, du, at, rest, depth + 1):
+                        out.append((k2, "`%s`" % src(leaf)))
+        else:
+            raise AnalysisError("%s: returned type `%s` is not a lookup of the recorded type (not modelled)" % (f.qualname, src(leaf)[:60]))
+    return out
+
+
 @rule("C18", "S9", floor=3, kind="S",
       desc="discovery reports collections with their real type: a metadata back end without a recorded type says so "
            "(KeyError), so that GitStore.get_type falls back to looking at the contents; and request paths lose "
@@ -476,22 +529,29 @@ def s9(ctx):
     obs.append(ctx.ob(fb, gt.qualname, gt.where, "no recorded type -> the type is derived from the contents",
                       "KeyError from config.get_type() falls back to Store.get_type()",
                       "GitStore.get_type no longer falls back to the content-based guess when no type is recorded"))
+    from ..dataflow import DefUse, origins
+    from .common import guarded_not_none
     for cq in ("xandikos.store.config.FileBasedCollectionMetadata", "xandikos.store.git.RepoCollectionMetadata"):
         f = ctx.own_method(cq, "get_type")
         cfgf = ctx.cfg(f)
-        # a default for the missing key hides the absence: .get("type", <default>) / except KeyError: return <const>
-        dflt = [src(c) for n in cfgf.stmt_nodes() for c in n.calls() if isinstance(c.func, ast.Attribute) and c.func.attr == "get" and len(c.args) >= 2
-                and any(ctx.P.try_fold(f.module, a) in ("type", b"type") for a in c.args[:2])
-                and not (len(c.args) == 2 and ctx.P.try_fold(f.module, c.args[0]) in ("xandikos", b"xandikos"))]
-        swallowed = []
-        for h in cfgf.handlers:
-            if h.types and "KeyError" in h.types:
-                body = [b for b in cfgf.nodes if b.handler is h]
-                if any(b.kind == "return" for b in body) and not any(b.kind == "raise" for b in body):
-                    swallowed.append("except KeyError: return ...")
-        bad = dflt + swallowed
+        du = DefUse(cfgf)
+        rets = [n for n in cfgf.nodes if n.kind == "return"]
+        if not rets:
+            raise AnalysisError("%s.get_type has no return" % cq)
+        bad = []
+        for r in rets:
+            v = r.ast.value
+            if v is None:
+                bad.append("return (None)")
+                continue
+            for kind, text in _absent_type_values(ctx, f, cfgf, du, r, v, 0):
+                if kind == "raises":
+                    continue
+                if kind == "none" and isinstance(v, ast.Name) and guarded_not_none(cfgf, r, v):
+                    continue
+                bad.append(text)
         obs.append(ctx.ob(not bad, f.qualname, f.where, "absent type is reported as KeyError", "no default for a missing type",
-                          "%s answers a collection without a recorded type with a default (%s): GitStore.get_type never reaches its content-based "
-                          "fallback and calendars / address books that were not created through the server are listed as plain collections"
-                          % (f.short, ", ".join(bad))))
+                          "%s answers a collection without a recorded type with a value instead of KeyError (%s): GitStore.get_type never "
+                          "reaches its content-based fallback and calendars / address books that were not created through the server are "
+                          "reported with the wrong resource type" % (f.short, ", ".join(sorted(set(bad))))))
     return obs
